@@ -6,6 +6,16 @@ DIFF_NOTE = ("Trusted: Lean 4.33 kernel (axioms propext, Classical.choice, Quot.
              "than verified: the Go analyser itself (hand-written Lean transcription, one function per Go function, explicit panics, fuel), "
              "float formatting of DiffInfo, x- extensions (oracle sweep only).")
 CLAIMED = {
+ "C08": {
+  "technique": "Lean 4 proof (invariant over the registration loop of gatherOperations for all candidate lists; counterexample theorem) + correspondence through a verif accessor + generation census",
+  "text": ("Proof + counterexample: `no_drop` shows by induction over the loop that for EVERY candidate list with pairwise distinct registration names (operationId, else the "
+           "method+path key) gatherOperations registers every operation under its own name (nothing dropped or merged); `gather_le`; `merge_is_silent` proves the property false of "
+           "the code when names collide (no error is raised) - a known finding. Tie: the real gatherOperations is called through an accessor on specs built from pools of names that "
+           "collide after mangling and compared with the compiled model (both tie orders of the unstable sort); each spec is then generated as a server and the generated "
+           "initHandlerCache and models directory are counted against the operations and definitions of the spec."),
+  "note": ("Trusted: Lean kernel + audited axioms; the verif accessor; genlab; regexp scan of generated code. Modelled rather than verified: file naming and type naming "
+           "(swag.ToGoName / ToFileName are dependencies; observed through the census), handler registration (read statically from generated code, requests are not sent)."),
+ },
  "C09": {
   "technique": "Lean 4 proof (escaper theorems for all strings; decide over the regenerated site table) + helper correspondence + hostile-payload AST differential",
   "text": ("Proof: for EVERY string blockcomment output contains no */ (block_safe), comment output never leaves the // lines (line_safe, via equality of the "
